@@ -93,8 +93,15 @@ def gen_mesh(rng, cid, misaligned=False, malformed=False):
             rng.shuffle(vids)
         variables.append({'name': 'scal', 'ids': vids, 'shape': [n, 1],
                           'flat': [pair(Fr(i)) for i in vids]})
+    overwrites = []
+    for v in variables:
+        if rng.random() < 0.3:
+            overwrites.append({'name': v['name'], 'shape': v['shape'],
+                               'how': rng.choice(['overwrite', 'setter']),
+                               'flat': [pair(Fr(rng.randint(-999, 999), rng.choice([1, 2, 4])))
+                                        for _ in v['flat']]})
     return {'id': cid, 'node_ids': ids, 'points': [[pair(x) for x in p] for p in pts],
-            'blocks': blocks, 'variables': variables, 'id_mode': mode,
+            'blocks': blocks, 'variables': variables, 'overwrites': overwrites, 'id_mode': mode,
             'stream': 'malformed' if malformed else ('misaligned' if misaligned else 'main')}
 
 
@@ -150,7 +157,9 @@ def oracle(c, r):
                 want = list(conn)
             if cell != [pos[i] for i in want]:
                 bad.append(('cell-nodes', {'type': t, 'conn': conn, 'cell': cell}))
-    want_vars = [v for v in c['variables'] if len(v['shape']) < 3]
+    latest = {ow['name']: ow['flat'] for ow in c.get('overwrites', [])}
+    want_vars = [dict(v, flat=latest.get(v['name'], v['flat']))
+                 for v in c['variables'] if len(v['shape']) < 3]
     names = set(r['point_data'])
     if names != {v['name'] for v in want_vars} | {'NODE'}:
         bad.append(('point-data-names', sorted(names)))
